@@ -220,18 +220,26 @@ CHECKS["C24"] = (
 
 # Families added after the adversary waves (DESIGN.md 10.1 / 10.5); appended to the level text.
 ADDENDA = {
-    "C15": " Also: every ordered pair of configurations within one field group of one base format is run back to back in one process (via make_sequence_header and via abandoned iter_sequence_headers generators), so state leaking between calls is in scope.",
-    "C16": " Also: two-column level definitions (columns admitting different base formats with different frame-rate rules, the shape of the real level 64) and two-step histories (ordered pairs of configurations differing in one field encoded back to back under one level definition).",
+    "C11": " Also: three pictures encoded through ONE State (kept transforms must stay intact and decode to their pictures) and pictures 255-1025 samples wide / tall.",
+    "C10": " Members beginning with zero bytes are included, and each member's own verdict is checked against how it was built.",
+    "C09": " Every seed stream is also decoded with the output callback given in six representations (function, bound method, partial, callable list, falsy callable, absent).",
+    "C07": " Explicit extended transform parameters under an explicit version 3 are read back from the bytes and must be coded as given.",
+    "C06": " Also: concatenations of sequences differing only in colour-difference sampling, and re-serialisation over old, longer file contents.",
+    "C05": " Also: two-configuration histories in one process, unequal-slice lossless configurations, and a content oracle for lossless_quantization (every coefficient read back as 1).",
+    "C03": " Also: 110 histories in which ONE CodecFeatures object (and its nested VideoParameters) is edited in place between two encodes.",
+    "C02": " The three reporting methods are independent queries: they are called in one of the six possible orders, chosen per case.",
+    "C15": " Also: every ordered pair of configurations within one field group of one base format is run back to back in one process (via make_sequence_header and via abandoned iter_sequence_headers generators), so state leaking between calls is in scope. Empty clean areas (zero width / height) are among the perturbations.",
+    "C16": " Also: two-column level definitions (columns admitting different base formats with different frame-rate rules, the shape of the real level 64) and two-step histories (ordered pairs of configurations differing in one field encoded back to back under one level definition). Configurations are also given with plain integers in place of enum members.",
     "C17": " Also: every ragged two-row CSV file (0..3 cells per row) and an operand-aliasing oracle (operands of finished operations are never modified later).",
     "C18": " Every valid_next_symbols() answer is edited in place by the harness and the question asked again.",
     "C19": " Also: rejoin, loop-pair and run families (unions whose sides hold the required symbols adjacent or interleaved).",
-    "C20": " Every reader case is repeated on a stream starting 1-3 bytes into its file (positions must shift, values must not).",
-    "C21": " Also: every list target replaced by each of 10 non-list values (falsy ones included) and every pair of needed values of one dictionary removed with per-context-type defaults.",
-    "C22": " Index-valued entries are given both as enum members and as the plain integers the sequence-header parser stores.",
-    "C23": " Also: sample-edit comparisons repeated with a difference mask requested, and histories of 2-3 formats written / read / compared through one VideoParameters object edited in place.",
-    "C24": " A second, two-configuration CSV (default cells, explicit quantisation matrix) is run serially, as workers one by one, and serially under other hash seeds; all trees must agree.",
-    "C25": " The reported bit offset must be the one the decoder nominates and the .raw bytes must equal the documented planar layout (mixed byte widths included).",
-    "C27": " Also: copy-with-overrides construction T(existing, key=value) and reference cycles through fixeddicts (8 shapes x pickle protocols 0-5 and deepcopy, structure compared including identities).",
+    "C20": " Every reader case is repeated on a stream starting 1-3 bytes into its file (positions must shift, values must not). Seek / read histories in a 9000-byte stream (positions around 512, 4096 and 8192) are included.",
+    "C21": " Also: every list target replaced by each of 10 non-list values (falsy ones included) and every pair of needed values of one dictionary removed with per-context-type defaults. Every deserialised description is edited in place by the harness after it was checked (nothing may be shared with later results); computed_value() is exercised with 13 value representations.",
+    "C22": " Index-valued entries are given both as enum members and as the plain integers the sequence-header parser stores. Pictures are consumed lazily and scribbled on before the next one is requested.",
+    "C23": " Also: sample-edit comparisons repeated with a difference mask requested, and histories of 2-3 formats written / read / compared through one VideoParameters object edited in place. Directory mode is run with directory names containing glob / regex / shell characters (with and without look-alike siblings), and a file is replaced in place (same size and modification time) between two comparisons.",
+    "C24": " A second, two-configuration CSV (default cells, explicit quantisation matrix) is run serially, as workers one by one, and serially under other hash seeds; all trees must agree. Renames count as a step on both their paths.",
+    "C25": " The reported bit offset must be the one the decoder nominates and the .raw bytes must equal the documented planar layout (mixed byte widths included). main() is entered with the interpreter's default integer-digit limit in force, and conformant streams carrying values of more than 4300 digits are included.",
+    "C27": " Also: copy-with-overrides construction T(existing, key=value) and reference cycles through fixeddicts (8 shapes x pickle protocols 0-5 and deepcopy, structure compared including identities). Operands of another fixeddict type and forged pickle streams (undeclared keys via __reduce__ state or a renamed key) are included.",
     "C28": " Also: oversized cells and bare carriage returns (raw family), cross-column files, unknown rows with format-special names, explicit names colliding with default column names.",
 }
 
